@@ -621,6 +621,7 @@ func (mgr *Manager) invalidateTags(updatedStreams, resetStreams, addedStreams bi
 }
 
 func (mgr *Manager) importPcapJob(filenames []string, nextStreamID uint64, existingIndexes []*index.Reader, existingIndexesReleaser indexReleaser) {
+	verifHook("import", -1, filenames, nextStreamID, existingIndexes)
 	processedFiles, usedNewStreamIDs, createdIndexes, updatedStreams, resetStreams, addedStreams, err := mgr.builder.FromPcap(mgr.PcapDir, filenames, existingIndexes)
 	if err != nil {
 		log.Printf("importPcapJob(%q) failed: %s", filenames, err)
@@ -639,6 +640,8 @@ func (mgr *Manager) importPcapJob(filenames []string, nextStreamID uint64, exist
 		newStreamCount += idx.StreamCount()
 		newPacketCount += idx.PacketCount()
 	}
+	verifHook("import", 0, processedFiles, createdIndexes, updatedStreams, resetStreams, addedStreams, err)
+	defer verifHook("import", 1)
 	mgr.jobs <- func() {
 		mgr.allStreams = allStreams
 		existingIndexesReleaser.release(mgr)
@@ -742,6 +745,7 @@ outer:
 }
 
 func (mgr *Manager) mergeIndexesJob(offset int, indexes []*index.Reader, releaser indexReleaser) {
+	verifHook("merge", -1, offset, indexes)
 	mergedIndexes, err := index.Merge(mgr.IndexDir, indexes)
 	if err != nil {
 		indexFilenames := []string{}
@@ -759,6 +763,8 @@ func (mgr *Manager) mergeIndexesJob(offset int, indexes []*index.Reader, release
 		streamsDiff -= idx.StreamCount()
 		packetsDiff -= idx.PacketCount()
 	}
+	verifHook("merge", 0, mergedIndexes, err)
+	defer verifHook("merge", 1)
 	mgr.jobs <- func() {
 		// replace old indexes if successfully created
 		if len(mergedIndexes) == 0 || err != nil {
@@ -791,6 +797,7 @@ func (mgr *Manager) mergeIndexesJob(offset int, indexes []*index.Reader, release
 }
 
 func (mgr *Manager) updateTagJob(name string, t tag, tagDetails map[string]query.TagDetails, converters map[string]index.ConverterAccess, indexes []*index.Reader, releaser indexReleaser) {
+	verifHook("tag", -1, name, &t, tagDetails, indexes)
 	err := func() error {
 		q, err := query.Parse(t.definition)
 		if err != nil {
@@ -812,6 +819,8 @@ func (mgr *Manager) updateTagJob(name string, t tag, tagDetails map[string]query
 		t.Matches = bitmask.LongBitmask{}
 	}
 	t.Uncertain = bitmask.LongBitmask{}
+	verifHook("tag", 0, name, &t, err)
+	defer verifHook("tag", 1)
 	mgr.jobs <- func() {
 		// don't touch the tag if it was modified
 		if ot, ok := mgr.tags[name]; ok && ot.definition == t.definition {
@@ -1422,6 +1431,7 @@ func (mgr *Manager) startConverterJobIfNeeded() {
 }
 
 func (mgr *Manager) convertStreamJob(allConverters []*converters.CachedConverter, allStreamIDs []*bitmask.LongBitmask, indexes []*index.Reader, releaser indexReleaser) {
+	verifHook("conv", -1, allConverters, allStreamIDs, indexes)
 	type job struct {
 		streamID  uint64
 		converter int
@@ -1537,6 +1547,8 @@ func (mgr *Manager) convertStreamJob(allConverters []*converters.CachedConverter
 		}
 	}
 
+	verifHook("conv", 0, allConverters, allStreamIDs)
+	defer verifHook("conv", 1)
 	mgr.jobs <- func() {
 		mgr.converterJobRunning = false
 
